@@ -74,6 +74,7 @@ func c13bRun(t *testing.T, p c13bPlan) (res vfResult) {
 				return
 			}
 		}
+		synctest.Wait() // the clients have their bodies; the handlers' deferred clean-up may still be running
 		if files := w.spillFiles(); len(files) != 0 {
 			res.failf("spill-left", "spill files remain: %v", files)
 			return
